@@ -23,6 +23,7 @@ EXPLANATION = (
     "and a prime call inherits the surrounding mode; (COMMENTS) Context::skip passes over comment tokens on every advance and comments live only in the parser's Statement "
     "(the resolved AST has no comment field); (NO-LAYOUT-FLOW) lowering and emission never use a span except the line of "
     "`<!>` (the one difference the property allows); (PARENS) a parenthesised expression resolves to its content."
+    ' (CURSOR) the token cursor is moved only by Context::skip/prev; skip ends with one loop passing comments and (under the flag) newlines in any interleaving; switching newline skipping on re-normalises the position.'
 )
 UNDECIDED = ("that every pair of surface variants parses to the same tree in all combinations (the prime-call argument loop ends at the "
              "first expression that fails to parse, which is layout dependent by design).")
@@ -290,7 +291,56 @@ def comments(F, rep):
             if n["name"] == "tokens" and "Context" in n.get("base_ty", "") and last(f2["_path"], 2) not in (
                     "Context::peek", "Context::comments_since_last_statement", "Context::new"):
                 raw.append(last(f2["_path"], 2))
+    cursor(F, rep)
     rep.ob("COMMENTS", "tokens-accessed-through-peek", not raw, "the token slice is read only by peek() and the comment collector (%s)" % raw)
+
+
+def cursor(F, rep):
+    """every Context a parse function can hold rests on a token that is neither a comment nor (in newline-skipping
+    mode) a newline.  That holds when (1) the cursor `curr` is only moved by Context::skip / Context::prev, (2) skip ends
+    with ONE loop that passes comments and - under the flag - newlines in any interleaving, and (3) switching the
+    newline mode on re-normalises the position through skip(0)."""
+    CT = P + "Context"
+    writers = set()
+    for f2 in F.own_fns(["sylt_parser"]):
+        for a in nodes(fn_body(f2)):
+            if a.get("k") in ("Assign", "AssignOp"):
+                l = peel(a["l"])
+                if l.get("k") == "Field" and l["name"] == "curr" and CT in (l.get("base_ty") or ""):
+                    writers.add(last(f2["_path"], 2))
+    rep.ob("CURSOR", "writers", writers == {"Context::skip", "Context::prev"},
+           "the token cursor is moved only by Context::skip and Context::prev (%s)" % sorted(writers))
+    fn = F.fn(P + "Context::skip")
+    passes = None
+    for lp in nodes(fn_body(fn), "Loop"):
+        if lp.get("src") != "Loop":
+            continue
+        for m in nodes(lp["body"], "Match"):
+            got = {}
+            for a in m["arms"]:
+                for alt in pat_alternatives(a["pat"]):
+                    v = pat_variant(alt)
+                    b = peel(a["body"])
+                    moves = b.get("k") == "AssignOp" and peel(b["l"]).get("name") == "curr"
+                    if v and moves:
+                        g = a.get("guard")
+                        got[last(v)] = bool(g) and any(x.get("name") == "skip_newlines" for x in nodes(g, "Field"))
+            if got:
+                passes = got
+    rep.ob("CURSOR", "skip|one-normalising-loop", passes == {"Comment": False, "Newline": True},
+           "skip() ends with a single loop that passes Comment tokens unconditionally and Newline tokens under the "
+           "skip_newlines flag, so they may alternate (%s)" % passes, fn["sp"])
+    fpush = F.fn(P + "Context::push_skip_newlines")
+    t = tc.n_tail(fn_body(fpush))
+    ok = False
+    if t.get("k") == "Tup" and t["es"]:
+        c = peel(t["es"][0])
+        if c.get("k") == "MethodCall" and callee(c) == P + "Context::skip":
+            a = peel(c["args"][0]) if c.get("args") else {}
+            ok = a.get("k") == "Lit" and a.get("v") == 0
+    rep.ob("CURSOR", "push_skip_newlines|renormalises", ok,
+           "push_skip_newlines returns new.skip(0): a context that enters newline-skipping mode on a newline (or on a comment "
+           "followed by one) is moved to the next significant token", fpush["sp"])
 
 
 def no_layout_flow(F, rep):
